@@ -53,7 +53,10 @@ CHECKS.update({
              "(name, value) pairs, every subset of a partial dict with str or Symbol keys, every rejection kind) is "
              "enumerated by TLC with BoundToName / RejectedBindsNothing / PartialKeepsOthers checked, and each "
              "maximal history is performed on a real model whose rate vector theta_k * X_k exposes each binding; "
-             "longer histories by simulation.",
+             "longer histories by simulation.  A second menu adds dicts that bind names to distributions (frozen / "
+             "(sampler, args)), the calls that re-draw them (integrate, integrate2, solve_stochast) and bindings built "
+             "from partial dicts alone (RandomIffDistribution, NumberEndsRedrawing, IntegrateKeepsBinding); a bystander "
+             "model bound with the same dict object must not see what is later done to the first.",
         design="5 C09, 3.3",
         note="The bare-number form of one-parameter models is not in the property's list of accepted forms (and "
              "raises TypeError on the pinned tree); it is specified but not judged.  Duplicate names in a pair list "
@@ -109,7 +112,9 @@ CHECKS.update({
              "= unique minimum, waiting time = that minimum, draws from the global stream; the first-reaction theorem "
              "then gives the law for every stream.  Second line: SIR final-size law (jump chain enumerated by TLC, exact "
              "Fractions) and linear-chain occupancy against exact binomial acceptance regions (false alarm < 1e-8), also through "
-             "the per-run call of the parallel route (one generator per draw).",
+             "the per-run call of the parallel route (one generator per draw), through the rows returned for a vector of "
+             "times (array / list / tuple; before and far past absorption), with two-sided limits every reachable state "
+             "satisfies and with a death-type step.  The simulated model object is also extended (add_*) and simulated again.",
         design="5 C05",
         note="numpy's exponential sampler trusted; if the draw pattern is not first-reaction shaped the mechanism is not "
              "judged and only the law test applies."),
@@ -141,7 +146,8 @@ CHECKS.update({
         text="Grid operators RowAt / CountsIn are defined in Jump.tla and the identity row(g2) = row(g1) + V.counts is "
              "checked on every explored path; for real gridded runs the recorder keeps the raw path of the same run and "
              "TLC requires one row per requested time, first row = x0, exact mode: row k = RowAt, counts = CountsIn per "
-             "event, consecutive rows differing by V.counts.",
+             "event, consecutive rows differing by V.counts.  A table whose run was rejected upstream is judged on its own "
+             "(TrGriddedAlone).",
         design="5 C15",
         note="Ties between event and grid times (probability 0) are discarded."),
 })
@@ -230,13 +236,14 @@ CHECKS.update({
 
 CHECKS.update({
     "C17": dict(
-        technique="TLA+ spec Abc (generations, strict acceptance, tolerance schedules, continue) checked exhaustively by TLC with "
+        technique="TLA+ spec Abc (generations, strict acceptance, tolerance schedules, continue, restart) checked exhaustively by TLC with "
                   "negative control; recorded ABC sessions validated event by event by TLC (TR_Abc) on cost / tolerance ranks",
         level="model_checking",
         text="MC_Abc for rejection, tolerance-list and quantile scheduling incl. continue: AcceptedUnderTol, "
-             "TolerancesNeverIncrease, PosteriorComplete (relaxed acceptance is found by TLC).  Real sessions (SIR, Lotka-Volterra; "
+             "TolerancesNeverIncrease, PosteriorComplete, NothingSurvivesARestart (relaxed acceptance is found by TLC).  Real sessions (SIR, Lotka-Volterra; "
              "square / normal loss; uniform / gamma / normal priors; log scale; parameter lists ordered unlike the model; an "
-             "initial value as free variable; nearest-neighbour kernels; get + continue) are recorded through a wrapper on "
+             "initial value as free variable, with or without a population constraint; nearest-neighbour kernels; get + continue at "
+             "the proposed or a tighter tolerance + a fresh run with a smaller population on the same object) are recorded through a wrapper on "
              "ABC._perform_generation and accepted only if every particle of every generation is a trial the specification "
              "accepts (prior positive by the specification's prior table, cost rank strictly below the tolerance rank), has a "
              "positive finite weight and a stored distance equal to the cost recomputed by a fresh loss object, and the "
@@ -256,7 +263,8 @@ CHECKS.update({
              "selections of <= 2 free parameters x start interior / on lower / on upper bound / at the generating values x tight / "
              "wide box).  Each configuration run returns ranks per coordinate and of the start / result costs recomputed from the "
              "reference trajectory; TLC accepts the outcome only if it satisfies FitPost (inside the box, not worse than the start, "
-             "generating parameters returned when started there on noise-free data).",
+             "generating parameters returned when started there on noise-free data).  The shared model object is given a "
+             "history before the fit (mixed assignment styles, another loss object, a random binding then numbers).",
         design="5 C18, 3.9",
         note="The optimiser is not modelled, so this is exploration of the configuration matrix, not a proof; quick tier runs one "
              "configuration per model x class x start."),
